@@ -174,6 +174,12 @@ template <class TM, class SM> struct Harness {
       for (int i = 0; i < cfg.N; ++i) if (std::fabs(os->getTimeSegments()[i] - prob.T[i]) > 1e-12 * prob.T[i]) { fail("initial-guess-roundtrip(lib)", fmt("duration %d = %.17g, reference %.17g", i, os->getTimeSegments()[i], prob.T[i])); return; }
       for (int i = 0; i <= cfg.N; ++i) for (int d = 0; d < D; ++d) if (std::fabs(os->getSpacePoints()(i, d) - prob.P(i, d)) > 1e-12 * (1 + std::fabs(prob.P(i, d)))) { fail("initial-guess-roundtrip(lib)", fmt("waypoint %d dim %d", i, d)); return; }
       for (int side = 0; side < 2; ++side) for (int k = 1; k <= S - 1; ++k) if (bc_ref(os->getBoundaryConditions(), side, k) != bc_ref(prob.bc, side, k)) { fail("initial-guess-roundtrip(lib)", fmt("boundary state side %d derivative %d", side, k)); return; } }
+    // neighbouring reference durations that differ by less than 1e-9 but are not equal (relative steps of 2^-31): every one of them
+    // must come back from the initial guess (a shortcut for "uniform" time allocations written with a tolerance: seeded change C17-m6)
+    if (cfg.N >= 2) { Opt o2 = opt; Prob q = prob; for (int i = 0; i < cfg.N; ++i) q.T[i] = prob.T[0] * (1.0 + i * 4.656612873077393e-10); ++c.st.comparisons;
+      if (!o2.setInitState(q.T, q.P, q.t0, q.bc)) { fail("setup", "valid problem (nearly equal durations) rejected: " + o2.getLastError()); return; }
+      Eigen::VectorXd xn = o2.generateInitialGuess(); if (xn.size() != L.total) { fail("initial-guess-size", "nearly equal durations"); return; }
+      for (int i = 0; i < cfg.N; ++i) { const double Ti = to_time(xn(i)); if (!(std::fabs(Ti - q.T[i]) <= 1e-12 * q.T[i])) { fail("initial-guess-roundtrip", fmt("nearly equal reference durations: duration %d decodes to %.17g, reference %.17g (neighbour %.17g)", i, Ti, q.T[i], q.T[i ? i - 1 : 1])); return; } } }
     // pairwise distinct decision vector 1 + i/64: mis-indexing is visible; unflagged quantities stay pinned exactly
     { Eigen::VectorXd x(L.total); for (int i = 0; i < L.total; ++i) x(i) = 1.0 + i / 64.0;
       if (cfg.sm == 3) for (int i = cfg.N; i < L.deriv_off; ++i) x(i) = (i - cfg.N) / 64.0 - 0.5;
